@@ -28,7 +28,11 @@ func (d *PathDecoder) bodySchemaCandidates(ctx context.Context, body *hclsyntax.
 			// check if count attribute is already declared, so we don't
 			// suggest a duplicate, and whether it matches the typed prefix
 			if _, ok := body.Attributes["count"]; !ok && strings.HasPrefix("count", string(prefix)) {
+				if uint(count) >= d.maxCandidates {
+					return candidates
+				}
 				candidates.List = append(candidates.List, attributeSchemaToCandidate(ctx, "count", schemahelper.CountAttributeSchema(), editRng))
+				count++
 			}
 		}
 
@@ -36,7 +40,11 @@ func (d *PathDecoder) bodySchemaCandidates(ctx context.Context, body *hclsyntax.
 			// check if for_each attribute is already declared, so we don't
 			// suggest a duplicate
 			if _, present := body.Attributes["for_each"]; !present && strings.HasPrefix("for_each", string(prefix)) {
+				if uint(count) >= d.maxCandidates {
+					return candidates
+				}
 				candidates.List = append(candidates.List, attributeSchemaToCandidate(ctx, "for_each", schemahelper.ForEachAttributeSchema(), editRng))
+				count++
 			}
 		}
 	}
